@@ -960,6 +960,51 @@ def gen_locals_history(rng, length):
     return [("expr", ("raw", h[0], h[1])) for h in hist]
 
 
+# gradient operators take a variable NAME, rebind it to perturbed points while they work and must put the
+# original value back: an expression without `::` leaves every variable as it was (oracles only)
+GRAD_VALUES = ['[1 2 3]', '[1.0 2.0 3.0]', '3', '2.5', '[[1.0 2.0] [3.0 4.0]]', '[0.5 1.5]', '[2 4]', '1.5', '0']
+GRAD_FNS = ['{+/x*x}', '{x*x}', '{+/x^2}', '{+/x*a}', '{(+/x)+b}', '{x+zz(1)}', '{+/x,"a"}', '{x*2}', '{+/,/x*x}',
+            '{(a*a)+b*b}', '{+/(a*x)+b}', '{x@0}', '{#x}', '{+/x*x;zz(1)}']
+
+
+def gen_grad_history(rng, length):
+    names = ["a", "b", "c", "d"]
+    hist = [(f"{w}::{rng.choice(GRAD_VALUES)}", [w]) for w in names]
+    hist += [("f::" + rng.choice(GRAD_FNS[:5]), ["f"]), ("g::" + rng.choice(GRAD_FNS), ["g"])]
+    for _ in range(length):
+        r = rng.random()
+        v, fn = rng.choice(names), rng.choice(["f", "g", rng.choice(GRAD_FNS)])
+        pt = rng.choice(GRAD_VALUES)
+        if r < 0.30:
+            e = f"{v}∇{fn}"                                 # by name
+        elif r < 0.38:
+            e = f"{pt}∇{fn}"                                # literal point
+        elif r < 0.52:
+            e = f"{fn}:>{rng.choice([v, pt])}"
+        elif r < 0.62:
+            e = f"{fn}:>[{rng.choice(names)} {rng.choice(names)}]"       # several parameters by name
+        elif r < 0.72:
+            e = f"{rng.choice([v, pt, '[a b]'])}∂{fn}"
+        elif r < 0.80:
+            hist.append((f"{v}::{pt}", [v]))
+            continue
+        elif r < 0.86:
+            hist.append((rng.choice(["f", "g"]) + "::" + rng.choice(GRAD_FNS), ["f", "g"]))
+            continue
+        elif r < 0.93:
+            hist.append((rng.choice(names), []))
+            continue
+        else:
+            hist.append(rng.choice(hist))
+            continue
+        if rng.random() < 0.25:
+            tgt = rng.choice(names)
+            hist.append((f"{tgt}::{e}", [tgt]))
+        else:
+            hist.append((e, []))
+    return [("expr", ("raw", t, al)) for t, al in hist]
+
+
 def gen_module_history(rng, length):
     """open, define, close, define same-named globals, re-open the same module, close, read (model grammar)"""
     names = ["a", "b"]
@@ -1075,6 +1120,14 @@ def scripted_histories():
     out.append([L_('a::100', ['a']), L_('b::[7 8 9]', ['b']), L_('f::{[a b];a::x*2;b::a+1;b}', ['f']),
                 L_('g::{[a;b];a::x*2;b::a+1;b}', ['g']), L_('f(5)', []), L_('a', []), L_('b', []), L_('g(5)', []),
                 L_('a', []), L_('b', []), L_('c::g(2)', ['c']), L_('a', [])])
+    # the gradient operators put back what they rebind (by name, several names, on success and on failure)
+    out.append([L_('a::[1 2 3]', ['a']), L_('b::a', ['b']), L_('f::{+/x*x}', ['f']), L_('a∇f', []), L_('a', []), L_('b', []),
+                L_('c::3', ['c']), L_('c∇{x*x}', []), L_('c', []), L_('d::[1.0 2.0]', ['d']), L_('d∇{x+zz(1)@"a"}', []),
+                L_('d', []), L_('f:>a', []), L_('a', []), L_('a∂f', []), L_('a', []), L_('[1.0 2.0]∇f', []),
+                L_('d∇{x*2}', []), L_('d', [])])
+    out.append([L_('a::1.5', ['a']), L_('b::0.5', ['b']), L_('g::{(a*a)+b*b}', ['g']), L_('g:>[a b]', []), L_('a', []),
+                L_('b', []), L_('[a b]∂g', []), L_('a', []), L_('c::[[1.0 2.0] [3.0 4.0]]', ['c']), L_('c∇{+/,/x*x}', []),
+                L_('c', []), L_('c∇{+/x*x}', []), L_('c', []), L_('d::g:>[a b]', ['d']), L_('a', [])])
     # re-opening a module must not change what a name evaluates to
     out.append([("module", "m1"), A_("b", lit_int(1)), A_("f", ("fn", op2("arith:plus", var("x"), var("b")))), ("module", None), A_("b", lit_int(50)),
                 E_(var("b")), ("module", "m1"), ("module", None), E_(var("b")), A_("b", lit_int(7)), E_(var("b")),
@@ -1373,7 +1426,8 @@ def _run(ctx):
                 "divide-by-zero / invalid probes, with process-global numeric state (np.geterr, print options, decimal "
                 "context, torch defaults) snapshotted around every statement and probe texts compared before/after in "
                 "brand-new interpreters; functions with local declarations in both spellings whose names collide with globals; "
-                "module open / define / close / same-named global / re-open / read histories); each statement re-run in a fresh interpreter loaded with a copy of the pre-state and in a "
+                "module open / define / close / same-named global / re-open / read histories; gradient operators ∇ :> ∂ by "
+                "variable name, by several names and by literal point, with losses that raise); each statement re-run in a fresh interpreter loaded with a copy of the pre-state and in a "
                 "cache-cleared interpreter; distinct = distinct histories; non-trivial = at least two statements")
     ctx.assumptions += [
         "Python-side mutation of arrays obtained through klong[name] is outside the property",
@@ -1413,6 +1467,11 @@ def _run(ctx):
             run_history(ctx, h, drv, "history-module")
             if s < 1:
                 ctx.sample(dict(kind="history-locals", texts=[stmt_text(x) for x in h]))
+        for s in range(80 if quick else 1200):
+            h = gen_grad_history(ctx.rng, ctx.rng.randrange(4, 10 if quick else 14))
+            run_history(ctx, h, None, "history-grad")
+            if s < 1:
+                ctx.sample(dict(kind="history-grad", texts=[stmt_text(x) for x in h]))
         for s in range(100 if quick else 1500):
             h = gen_numeric_history(ctx.rng, ctx.rng.randrange(4, 10 if quick else 14))
             run_history(ctx, h, None, "history-numeric", probes=True)
